@@ -94,6 +94,12 @@ def encodings(F, res, cg):
     for what, prim, cond in ENCODINGS:
         name, _, garg = prim.partition("|")
         hits = [(f, t) for f, t in calls if (t.get("callee") or "") == name and (not garg or garg in (t.get("gargs") or []))]
+        if not hits and not garg:
+            # the primitive handed over as a function value (`.map(i128::from_be_bytes)`)
+            for f, t in calls:
+                vals = [c_.get("fn_resolved") or c_.get("fn") for c_ in (mir.op_const(a) for a in t["args"]) if c_ and "fn" in c_] + list(t.get("fnrefs") or [])
+                if name in vals:
+                    hits.append((f, t))
         key = "tx3_resolver::interop|%s" % what
         if not hits:
             res.add([finding("ENCODINGS", key, "crates/tx3-resolver/src/interop.rs", "%s: `%s` is no longer on the decoding path" % (what, name.split("::<")[0]))])
@@ -224,28 +230,52 @@ ITER_ADAPTORS = tuple("std::iter::Iterator::" + n for n in (
 
 
 def declared_only_collected(F, res, f):
-    """S-DECLARED when the argument map is not filled by `insert` but collected from an iterator chain.  Two shapes:
-    the chain walks the declared table (`find_params(..)`): its keys are declared by construction and the type handed to
-    from_json is the walked entry's; or the chain walks the supplied entries and a `filter_map` / `flat_map` stage looks each key
-    up in the declared table.  Anything else is reported as not decided."""
+    """S-DECLARED when the argument map is not filled by `insert` in the function's own loop but collected / folded from an
+    iterator chain.  Two shapes: the chain walks the declared table (`find_params(..)`): its keys are declared by construction and
+    the type handed to from_json is the walked entry's; or the chain walks the supplied entries and a `filter_map` / `flat_map`
+    stage looks each key up in the declared table (dropping exactly the undeclared ones) and coerces with the type found.
+    Anything else is reported as not decided.  Closures are read with the crate's helpers inlined."""
+    from ..common import deep_bodies, outer_origins
     w = where(f)
     key = f["path"] + "|insert only for declared keys"
     key2 = f["path"] + "|coerced with the declared type"
     key3 = f["path"] + "|declared = find_params(tir)"
-    bodies = with_closures(F, f)
-    fj = [(b, t) for b in bodies for bi, t in mir.calls(b) if call_matches(t, "tx3_resolver::interop::from_json")]
+    deep = deep_bodies(F, "tx3_resolver::trp::parse_resolve_request")
+    by_path = {b["path"]: b for b in deep}
+    fj = [(b, t) for b in deep for bi, t in mir.calls(b) if call_matches(t, "tx3_resolver::interop::from_json")]
     if not fj:
         raise BrokenCheck("parse_resolve_request: no from_json call found (anchor changed)")
+    f = deep[0]
     du = mir.DefUse(f)
     builds = []
     for bi, t in mir.calls(f):
         last = (t.get("callee") or "").split("::")[-1]
-        if last in ("collect", "from_iter") and ARGMAP in f["locals"][t["dest"]["l"]] and t["args"]:
+        dty = f["locals"][t["dest"]["l"]]
+        if last in ("collect", "from_iter") and ARGMAP in dty and t["args"]:
             builds.append((t, t["args"][0]))
         elif last == "extend" and len(t["args"]) > 1 and mir.op_place(t["args"][0]) is not None and ARGMAP in f["locals"][mir.op_place(t["args"][0])["l"]]:
             builds.append((t, t["args"][1]))
+        elif last in ("try_fold", "fold") and ARGMAP in dty and t["args"]:
+            # `chain.try_fold(ArgMap::new(), |mut acc, item| { acc.insert(k, v); Ok(acc) })`
+            builds.append((t, t["args"][0]))
     if not builds:
         raise BrokenCheck("parse_resolve_request: the argument map is neither filled by insert nor collected (anchor changed)")
+
+    def lookups_in(c):
+        """declared-table lookups made by closure c (helpers inlined) or the closures under it"""
+        out = []
+        st, seen = [c["path"]], set()
+        while st:
+            pth = st.pop()
+            if pth in seen or pth not in by_path:
+                continue
+            seen.add(pth)
+            cb = by_path[pth]
+            for _, t2 in mir.calls(cb):
+                if LOOKUP_RE.search(t2.get("callee") or "") and "tx3_tir::model::core::Type" in cb["locals"][t2["dest"]["l"]]:
+                    out.append((cb, t2))
+                st.extend(x for x in t2.get("fnrefs") or ())
+        return out
     for t, src in builds:
         org = mir.provenance(f, du, src, transparent_extra=ITER_ADAPTORS)
         from_declared = bool(org) and all(o.kind == "call" and o.callee == "tx3_tir::reduce::find_params" for o in org)
@@ -280,19 +310,49 @@ def declared_only_collected(F, res, f):
             else:
                 res.add([finding("S-DECLARED", key2, w, "from_json is not called with the type the template declares: " + "; ".join(why))])
             continue
-        looked_up = False
+        looked = []
         for at, c in stage_closures:
             if (at.get("callee") or "").split("::")[-1] in ("filter_map", "flat_map"):
-                for cb in with_closures(F, c):
-                    for _, t2 in mir.calls(cb):
-                        if LOOKUP_RE.search(t2.get("callee") or "") and "tx3_tir::model::core::Type" in cb["locals"][t2["dest"]["l"]]:
-                            looked_up = True
-        if looked_up:
-            res.add([ok("S-DECLARED", key, where(f, t["line"]), "the argument map is collected from the supplied entries through a filter_map stage that looks the key up in the declared table")])
-            res.add([assumption("S-DECLARED", key2, w, "collected form over the supplied entries: the type handed to from_json is not traced (not decided)")])
-            res.add([assumption("S-DECLARED", key3, w, "collected form over the supplied entries: the table looked up is not traced back to find_params (not decided)")])
-        else:
+                looked += lookups_in(c)
+        if not looked:
             res.add([assumption("S-DECLARED", key, where(f, t["line"]), "the argument map is collected from a chain whose shape is not recognised (neither a walk over the declared table nor a looked-up filter_map over the supplied entries): not decided")])
+            continue
+        res.add([ok("S-DECLARED", key, where(f, t["line"]), "the argument map is built from the supplied entries through a filter_map stage that looks the key up in the declared table and drops the entry when it is not there")])
+        # the type handed to from_json is what the lookup found: from_json sits in the closure of an `Option::map` (or behind a
+        # `?` / match) on the lookup's result
+        good2, why = True, []
+        for b, ft in fj:
+            o = mir.provenance(b, mir.DefUse(b), ft["args"][1], transparent_extra=("std::ops::Try::branch",))
+            if any(x.kind == "call" and LOOKUP_RE.search(x.callee) for x in o):
+                why.append("type argument derives from the lookup")
+                continue
+            via_map = False
+            if b["def_kind"] == "Closure" and o and all(x.kind == "arg" and x.local == 2 for x in o):
+                for hb in deep:
+                    dh = None
+                    for _, t2 in mir.calls(hb):
+                        if (t2.get("callee") or "") in ("std::option::Option::<T>::map", "std::option::Option::<T>::and_then", "std::option::Option::<T>::map_or", "std::option::Option::<T>::map_or_else") and b["path"] in (t2.get("fnrefs") or ()):
+                            dh = dh or mir.DefUse(hb)
+                            if any(x.kind == "call" and LOOKUP_RE.search(x.callee) for x in mir.provenance(hb, dh, t2["args"][0])):
+                                via_map = True
+            if via_map:
+                why.append("type argument is the payload of the lookup's result (closure of Option::map on it)")
+            else:
+                good2 = False
+                why.append("type argument: %r" % o)
+        if good2:
+            res.add([ok("S-DECLARED", key2, w, "; ".join(sorted(set(why))))])
+        else:
+            res.add([finding("S-DECLARED", key2, w, "from_json is not called with the type the template declares: " + "; ".join(why))])
+        ok3 = False
+        for cb, t2 in looked:
+            for fn2, o in outer_origins(F, cb, t2["args"][0], depth=3):
+                if o.kind == "call" and o.callee == "tx3_tir::reduce::find_params":
+                    ok3 = True
+        if ok3:
+            res.add([ok("S-DECLARED", key3, w, "the map consulted is find_params(&tir)")])
+        else:
+            res.add([assumption("S-DECLARED", key3, w, "the table looked up inside the chain's closure could not be traced back to find_params (not decided)")])
 
 
 def type_arms(F, res):
@@ -321,6 +381,23 @@ DROPPING = ("filter", "filter_map", "take", "skip", "take_while", "skip_while", 
 # consumes); cutting the walk short is not
 TRUNCATING = ("take", "skip", "take_while", "skip_while", "map_while", "scan", "step_by", "nth", "last", "find", "find_map", "truncate", "clear",
               "drain", "split_off", "pop_first", "pop_last")
+
+
+def _closure_looks_up(F, t):
+    from ..common import deep_bodies
+    by_path = {b["path"]: b for b in deep_bodies(F, "tx3_resolver::trp::parse_resolve_request")}
+    st, seen = list(t.get("fnrefs") or ()), set()
+    while st:
+        pth = st.pop()
+        if pth in seen or pth not in by_path:
+            continue
+        seen.add(pth)
+        cb = by_path[pth]
+        for _, t2 in mir.calls(cb):
+            if LOOKUP_RE.search(t2.get("callee") or "") and "tx3_tir::model::core::Type" in cb["locals"][t2["dest"]["l"]]:
+                return True
+            st.extend(t2.get("fnrefs") or ())
+    return False
 
 
 def all_supplied(F, res):
@@ -355,6 +432,8 @@ def all_supplied(F, res):
                 continue
             if not flds:
                 continue
+            if last in ("filter_map", "flat_map") and _closure_looks_up(F, t):
+                continue       # the stage that drops exactly the undeclared entries (S-DECLARED judges it)
             n += 1
             key = "tx3_resolver::trp::parse_resolve_request|request.%s passes through %s" % ("/".join(sorted(flds)), last)
             res.add([finding("S-ALLSUPPLIED", key, where(b, t["line"]), "entries supplied under `%s` go through `%s` before they are matched against the declared parameters: a declared argument can be dropped (or an ill-formed one go unnoticed) depending on what else the request contains" % ("/".join(sorted(flds)), last))])
